@@ -623,7 +623,9 @@ Definition finalize (w : wallet) (slate ttl tip : N) (state_ok crypto_ok : bool)
                 let w2 := save_ctx w1 c' in
                 match lock w2 slate ttl tip with
                 | (w3, Ok _) => (w3, Ok c')
-                | (w3, Err e) => (w3, Err e)
+                | (w3, Err e) => (save_ctx w3 c, Err e)   (* refused: the late-locked context goes back
+                                                             (a [fix:] for C03; left as just saved, a retry
+                                                             skipped the reservation and signed) *)
                 | (w3, Panic q) => (w3, Panic q)
                 end
             end
